@@ -218,6 +218,30 @@ Proof. exact lq_size_zero_iff. Qed.
 Print Assumptions C05_lqueue_size_zero_iff_empty.
 
 (* ------------------------------------------------------------------ *)
+(* 5. Indifference to the element type.  The models fix T := Z; the    *)
+(*    code is generic in a comparable T.  Both models (hence, by 1.,   *)
+(*    the specification) commute with every injective renaming f of    *)
+(*    the elements that fixes the zero value: running the renamed      *)
+(*    history gives the renamed answers.  This is what licenses the    *)
+(*    harness to run Queue[string], LQueue[struct] ... through an      *)
+(*    injective codec int <-> T and to judge the decoded observation   *)
+(*    with the Z-model (stream "instances").  All other theorems of    *)
+(*    this file are stated over Z only.                                *)
+(* ------------------------------------------------------------------ *)
+
+Theorem C05_queue_element_type_indifferent : forall (f : Z -> Z) ops,
+  (forall a b, f a = f b -> a = b) -> f 0 = 0 ->
+  outs sq_step sq_new (map (qop_map f) ops) = map (qout_map f) (outs sq_step sq_new ops).
+Proof. exact sq_equivariant. Qed.
+Print Assumptions C05_queue_element_type_indifferent.
+
+Theorem C05_lqueue_element_type_indifferent : forall (f : Z -> Z) t ops,
+  (forall a b, f a = f b -> a = b) -> f 0 = 0 ->
+  outs lq_step (lq_new (f t)) (map (qop_map f) ops) = map (qout_map f) (outs lq_step (lq_new t) ops).
+Proof. exact lq_equivariant. Qed.
+Print Assumptions C05_lqueue_element_type_indifferent.
+
+(* ------------------------------------------------------------------ *)
 (* Non-vacuity: a concrete history that drains and refills meets the   *)
 (* hypotheses, and the invariant is inhabited in its "ghost" state.    *)
 (* ------------------------------------------------------------------ *)
@@ -247,3 +271,11 @@ Example C05_example_clear_refill :
     [ONone; ONone; ONone; ONone; OSize 0; ODeq true 0; ONone; ONone; OBool false; OBool false; OBool false;
      OVal 4; ODeq false 4; OSize 1; ODeq false 5; OSize 0; ODeq true 0].
 Proof. vm_compute. repeat split; reflexivity. Qed.
+
+(* the hypotheses on f are satisfiable by a non-identity renaming *)
+Example C05_example_renaming :
+  let f := fun x => 2 * x in
+  (forall a b, f a = f b -> a = b) /\ f 0 = 0 /\
+  outs lq_step (lq_new (f 1)) (map (qop_map f) [Enqueue 2; Search 2; Dequeue; Peek]) =
+    [ONone; OBool true; ODeq false 2; OVal 4].
+Proof. cbn beta zeta. split; [intros a b H; lia|]. split; reflexivity. Qed.
